@@ -162,3 +162,44 @@ func VfC12_History() {
 	vfAssert("C12.history.same-verdict", (e0 == nil) == (e1 == nil))
 	vfAssert("C12.history.same-output", s0 == s1)
 }
+
+// VfC12_Concurrent (L4): two unrelated inputs parsed and printed on two
+// goroutines: both orders of the two are executed on one heap; every access
+// to an object that existed before the goroutines started (package-level
+// state: tables, caches, pools) is logged with the mutexes held; no two
+// accesses of different goroutines to one location, one of them a write, may
+// lack a common mutex, and each result equals the result of parsing that
+// input alone.  Natively the two parses really run on two goroutines under
+// -race.
+//
+//vf:unwind 400
+//vf:steps 200000000
+func VfC12_Concurrent() {
+	a := hLetterIn("a", 'a', 'c')
+	b := hLetterIn("b", 'd', 'f')
+	srcA := "%t = type { i37, %t* }\n@" + a + " = global %t zeroinitializer\ndefine i37 @f(i37 %x) {\n\t%y = add i37 %x, 1\n\tret i37 %y\n}\n!nm = !{!0}\n!0 = !{!\"s\"}\n"
+	srcB := "$c = comdat any\n@" + b + " = global [2 x i41] zeroinitializer, comdat($c)\ndeclare void @g(<3 x i41>)\n!0 = !DIFile(filename: \"a\", directory: \"b\")\n"
+	var gotA, gotB string
+	parRun(func() {
+		if m, err := ParseString("a.ll", srcA); err == nil {
+			gotA = m.String()
+		}
+	}, func() {
+		if m, err := ParseString("b.ll", srcB); err == nil {
+			gotB = m.String()
+		}
+	})
+	// sequential reference results, taken afterwards: taken before, they would
+	// do all first-time work (fill every cache) ahead of the goroutines
+	var wantA, wantB string
+	if m, err := ParseString("a.ll", srcA); err == nil {
+		wantA = m.String()
+	}
+	if m, err := ParseString("b.ll", srcB); err == nil {
+		wantB = m.String()
+	}
+	vfReach("C12.concurrent")
+	vfAssert("C12.concurrent.accepted", vfAnd(len(wantA) > 0, len(wantB) > 0))
+	vfAssert("C12.concurrent.same-output", vfAnd(gotA == wantA, gotB == wantB))
+	vfAssert("C12.concurrent.race-free", vfNoRace())
+}
